@@ -257,7 +257,7 @@ func cmdKvRandom(args []string) error {
 			case r < 32:
 				ops = append(ops, kvOp{Op: "setctxlang", S: langs[rng.Intn(len(langs))]})
 			case r < 37:
-				ops = append(ops, kvOp{Op: "setlock", T: []int{0, 1, 2, 4, 8, 16}[rng.Intn(6)], B: rng.Intn(2) == 0})
+				ops = append(ops, kvOp{Op: "setlock", T: []int{0, 1, 2, 4, 8, 16, 9, 17, 3, 15, 63, 40}[rng.Intn(12)], B: rng.Intn(2) == 0}) // single types and combined masks
 			case r < 65:
 				nv++
 				v := fmt.Sprintf("v%d", nv)
